@@ -73,6 +73,18 @@ theorem rd_node {s : State} (M : MemInv s) (t a : Nat) (ha : 3 ≤ a) (h : rd s 
   · rw [h2]; exact M.ent_node t a v (lastFor_mem _ _ _ h1) ha
   · rw [h2] at h ⊢; exact M.mem_node a ha h
 
+/-- a non-NULL value read from `a.next`: no append to `a` is between its xchg and its store issue -/
+theorem rd_pnd {s : State} (M : MemInv s) (t a : Nat) (h : rd s t a ≠ 0) : s.pnd a = false := by
+  cases hp : s.pnd a with
+  | false => rfl
+  | true =>
+    exfalso
+    obtain ⟨h1, h2, -, -⟩ := M.pnd_ok a hp
+    rcases rd_eq s t a with ⟨v, h3, h4⟩ | ⟨h3, h4⟩
+    · have := M.ent_wr t a v (lastFor_mem _ _ _ h3)
+      rw [h2] at this; simp at this
+    · rw [h4] at h; exact h h1
+
 theorem mem_abs_all {s : State} {q n : Nat} (hq : isQ q) (h : n ∈ s.abs q) : n ∈ allNodes s := by
   unfold allNodes; rcases hq with rfl | rfl <;> simp [h]
 
